@@ -333,19 +333,34 @@ Fixpoint text_lines_from (cur : bline) (s : string) : list bline :=
   match s with
   | EmptyString => [cur]
   | String c r =>
-      match nat_of_ascii c with
-      | 10 => cur :: text_lines_from bl0 r
-      | 13 => match r with
-              | String c2 r2 => if Nat.eqb (nat_of_ascii c2) 10 then cur :: text_lines_from bl0 r2
-                                else cur :: text_lines_from bl0 r
-              | EmptyString => cur :: text_lines_from bl0 r
-              end
-      | _ => text_lines_from (bl_push cur c) r
-      end
+      if Nat.eqb (nat_of_ascii c) 10 then cur :: text_lines_from bl0 r
+      else if Nat.eqb (nat_of_ascii c) 13 then
+        match r with
+        | String c2 r2 => if Nat.eqb (nat_of_ascii c2) 10 then cur :: text_lines_from bl0 r2
+                          else cur :: text_lines_from bl0 r
+        | EmptyString => cur :: text_lines_from bl0 r
+        end
+      else text_lines_from (bl_push cur c) r
   end.
 Definition text_lines (s : string) : list bline := text_lines_from bl0 s.
 
 Definition byte_lenZ (s : string) : Z := Z.of_nat (String.length s).
+
+(* The grapheme view of an ASCII text (UAX #29 on ASCII: every byte is its own grapheme except that CR LF is one):
+   used to state that the byte-level line table above is the model's line table (Proofs: ascii_line_table_agrees). *)
+Fixpoint gks_of_ascii (s : string) : list gk :=
+  match s with
+  | EmptyString => []
+  | String c r =>
+      if Nat.eqb (nat_of_ascii c) 10 then GNl :: gks_of_ascii r
+      else if Nat.eqb (nat_of_ascii c) 13 then
+        match r with
+        | String c2 r2 => if Nat.eqb (nat_of_ascii c2) 10 then GNl :: gks_of_ascii r2 else GNl :: gks_of_ascii r
+        | EmptyString => GNl :: gks_of_ascii r
+        end
+      else GCh (if byte_ctl (nat_of_ascii c) then 0 else 1) :: gks_of_ascii r
+  end.
+Definition bl_width (b : bline) : Z := (bl_bytes b - bl_ctl b)%Z.
 
 (* the harness's (graphemes, width) of one line against the bytes of that line:
    ASCII line: exactly (bytes, bytes - controls); otherwise width <= graphemes <= code points, and a
